@@ -85,7 +85,20 @@ func (r *Reg) InUse(id string) bool {
 
 func polOpt(p string, node bool) []el.Option { return policyOpt(p, node) }
 
-func validPolicy(p string) bool { return p == "" || p == "allow" || p == "deny" }
+func validPolicy(p string) bool {
+	if i := strings.Index(p, "+"); i >= 0 {
+		return validPolicy(p[:i]) && validPolicy(p[i+1:])
+	}
+	return p == "" || p == "allow" || p == "deny"
+}
+
+// effectivePolicy: of several (valid) policy options the last one applies.
+func effectivePolicy(p string) string {
+	if i := strings.LastIndex(p, "+"); i >= 0 {
+		return p[i+1:]
+	}
+	return p
+}
 
 var ctxBG = context.Background()
 
@@ -97,7 +110,13 @@ var ctxDone = func() context.Context {
 }()
 
 // RegisterNode registers a fresh object under id. Returns a violation text or "".
-func (r *Reg) RegisterNode(id, policy string) string {
+func (r *Reg) RegisterNode(id, policy string) string { return r.registerNode(id, policy, false) }
+
+// RegisterNodeSame registers, under id, the very object that is registered under it already (a fresh one
+// if there is none): a re-registration that changes nothing but possibly the policy.
+func (r *Reg) RegisterNodeSame(id, policy string) string { return r.registerNode(id, policy, true) }
+
+func (r *Reg) registerNode(id, policy string, same bool) string {
 	kind, ok := r.Kinds[id]
 	if !ok {
 		kind = el.NodeTypeFilter
@@ -108,6 +127,9 @@ func (r *Reg) RegisterNode(id, policy string) string {
 	}
 	if r.CloseErrIDs[id] {
 		n.CloseErr = fmt.Errorf("close of %s fails", id)
+	}
+	if m, exists := r.MNodes[id]; exists && same {
+		n = m.Obj
 	}
 	closesBefore := r.closes()
 	err := r.B.RegisterNode(el.NodeID(id), n.AsNode(), polOpt(policy, true)...)
@@ -129,8 +151,10 @@ func (r *Reg) RegisterNode(id, policy string) string {
 		return fmt.Sprintf("RegisterNode(%q, policy %q) returned %v; the overwrite policy in force demands error=%v", id, policy, err, wantErr)
 	}
 	if err == nil {
-		r.objs[id] = append(r.objs[id], n)
-		pol := policy
+		if m, exists := r.MNodes[id]; !exists || m.Obj != n {
+			r.objs[id] = append(r.objs[id], n)
+		}
+		pol := effectivePolicy(policy)
 		if pol == "" {
 			pol = "allow"
 		}
@@ -188,7 +212,7 @@ func (r *Reg) RegisterPipeline(typ, pid string, ids []string, policy string) (bo
 		for i, id := range ids {
 			objs[i] = r.MNodes[id].Obj
 		}
-		pol := policy
+		pol := effectivePolicy(policy)
 		if pol == "" {
 			pol = "allow"
 		}
